@@ -127,7 +127,7 @@ class Run:
             return False, r, None
         except tl.Timeout:
             raise
-        except (ValueError, TypeError, IndexError) as e:
+        except Exception as e:      # ValueError is the documented way to refuse; anything else also counts as "raised"
             return True, None, repr(e)
 
     def single(self, p, st, op_of_pre, f, hid, si):
@@ -378,6 +378,26 @@ def classify(code, meta):
     return None
 
 
+INSERTIONS = ('span_off', 'link_off', 'span_re', 'link_re', 'bm', 'ref', 'note', 'annot', 'bm2', 'ref2', 'annot2')
+
+
+def py_oracle(meta):
+    """direct Python statement of the property on one executed step (used only to look for a concrete failing input
+    when a proof or the Coq evaluation itself broke): None = fine, else a description"""
+    st, pre, post = meta['st'], meta['pre'], meta['post']
+    nonempty = lambda n: [e for e in tl.flat(n) if e != ('T', '')]
+    if meta['raised']:
+        return None if nonempty(pre) == nonempty(post) else "raised after modifying the paragraph"
+    if st['k'] in INSERTIONS and st.get('part') != 'range':
+        if st['k'].endswith('off') and st['off'] < 0:
+            return None
+        return None if tl.readable(pre) == tl.readable(post) else "insertion changed the readable text"
+    if st['k'].startswith('remove'):
+        if tl.raw(pre) == tl.raw(post): return None
+        return None if squeeze(tl.raw(pre)) == squeeze(tl.raw(post)) else "stripping changed characters other than runs of spaces"
+    return None
+
+
 def minimal_history(h, steps, meta):
     """replay payload: the history cut after the failing step, removals before it dropped"""
     si = meta['step']
@@ -434,6 +454,17 @@ def run(tier, seed, replay=None):
     for k, n in sorted(seen_keys.items()):
         known_seen.append("%s re-observed on %d step(s)" % (k, n))
     hard = bool(violations)
+    proof_broken = (proofs is not None and not proofs["ok"]) or bool(errors) or bool(abstraction_errors)
+    if proof_broken and not hard:
+        # DESIGN 2.4: before "no failing input found", look for one with the direct oracle over everything that was executed
+        for i, (t, meta) in enumerate(R.cases):
+            why = py_oracle(meta)
+            if why:
+                h = hs[meta['hid']]
+                rp = common.write_replay(PROP, seed, "py%d" % i, dict(layer="direct oracle: " + why, code=-1,
+                     history=minimal_history(h, all_steps[meta['hid']], meta), failing_step=meta['st'], known_finding_key=None))
+                violations.append((rp, False)); hard = True
+                break
     if abstraction_errors and not hard:
         errors = errors + ["abstraction/driver: %s" % (abstraction_errors[:3],)]
     violations += common.proof_violation(PROP, seed, proofs, errors, hard)
